@@ -197,6 +197,14 @@ def analyse(kind, x, kw, st, out, recs, rounding=False):
         # MORE member calls than layers x members x signs: two layers perturbing the very same residual were merged by layers_of and
         # cannot be told apart.  (FEWER calls is not this case: a member or a sign is missing, which the per-layer test below reports)
         return [], 'degenerate-layers', info
+    nmember = sum(1 for r in recs if r['kind'] == 'member')
+    if st == 'ok' and amp != 0 and nmember < nens * len(signs):
+        # "every ensemble member is sifted with its own noise realisation": with non-zero noise there must be a member sift per
+        # (member, sign) - a run that sifts fewer (e.g. falls back to one plain sift) has no realisations at all
+        fails.append((kind, '%s with ensemble_noise=%g (x std = %.3g), nensembles=%d, noise_mode=%s ran %d member sift(s) instead of %d: '
+                      'the members did not each get a noise realisation' % (kind, amp, float(X.std()), nens, mode, nmember, nens * len(signs)),
+                      dict(member_sifts=nmember), dict(member_sifts=nens * len(signs))))
+        return fails, None, info
     # ---- every layer: one call per (member, sign); noise = sift input - X
     for L, (XL, members) in enumerate(lay):
         if sorted(members, key=lambda m: (m is None, m)) != list(range(nens)) or any(sorted(v) != sorted(signs) for v in members.values()):
@@ -342,6 +350,8 @@ def real_signal(fam, N, seed):
 def real_case(inp, tracedir):
     """inp: dict(variant, family, N, sigseed, nensembles, nprocesses, noise_mode, level, max_imfs, npseed)"""
     x = real_signal(inp['family'], inp['N'], inp['sigseed'])
+    if inp.get('ampscale'):
+        x = np.asarray(x, dtype=float) * inp['ampscale']          # recordings in very small units (volts, tesla): noise is RELATIVE to std(x)
     if inp.get('dtype'):
         # coarse integer counts (a few counts of amplitude): the member noise is then a fraction of one count
         x = np.round(np.asarray(x, dtype=float) * 3 / max(1e-12, float(np.std(x)))).astype(inp['dtype'])
@@ -598,6 +608,15 @@ def grid(ctx):
                     cases.append(dict(variant=variant, family=fams[n % 2], N=64 + 16 * (n % 5), sigseed=ctx.seed * 7 + n % 3,
                                       nensembles=nens, nprocesses=nproc, noise_mode=mode, level=1 + n % 2,
                                       max_imfs=2 + (n % 2), npseed=(ctx.seed * 100003 + n) % (2 ** 31)))
+    # recordings in very small units with non-zero (relative) noise: every member must still get its own realisation
+    for variant in ('ensemble_sift', 'complete_ensemble_sift'):
+        for nens, nproc in (((2, 1), (3, 2)) if q else ((2, 1), (3, 2), (4, 3), (8, 4))):
+            for mode in ('single', 'flip'):
+                for sc in (1e-9, 1e-12):
+                    n += 1
+                    cases.append(dict(variant=variant, family=fams[n % 2], N=64 + 16 * (n % 5), sigseed=ctx.seed * 7 + n % 3,
+                                      nensembles=nens, nprocesses=nproc, noise_mode=mode, level=1 + n % 2, ampscale=sc,
+                                      max_imfs=2 + (n % 2), npseed=(ctx.seed * 100003 + n) % (2 ** 31)))
     # integer-typed recordings (coarse counts) with non-zero noise: every member must still get its own realisation
     for variant in ('ensemble_sift', 'complete_ensemble_sift'):
         for nens, nproc in (((2, 1), (3, 2), (4, 3)) if q else ((2, 1), (3, 2), (4, 3), (5, 1), (8, 8), (7, 2))):
@@ -639,7 +658,7 @@ def toy_cases(ctx):
 
 
 def run(ctx):
-    ctx.rule = ('real numerics: nensembles 1..%d x nprocesses 1..%d (quick tier: plus (5,1) (6,1) (8,1) (7,3) (8,2); plus int16 / int64 recordings of a few counts amplitude with non-zero noise) x {single, flip} x noise amplitude {0, 0.05, 1.0} x std, signals tones / random walk '
+    ctx.rule = ('real numerics: nensembles 1..%d x nprocesses 1..%d (quick tier: plus (5,1) (6,1) (8,1) (7,3) (8,2); plus int16 / int64 recordings of a few counts amplitude and recordings scaled by 1e-9 / 1e-12, with non-zero noise) x {single, flip} x noise amplitude {0, 0.05, 1.0} x std, signals tones / random walk '
                 '/ AM-FM + noise of 64..128 samples, max_imfs 2..3, for ensemble_sift and complete_ensemble_sift; '
                 'per run the traced noise of every (member, sign) must be pairwise distinct across members (amplitude != 0), the result must be the '
                 'mean of the member decompositions recomputed from the traced inputs (flip: mean of +/-), zero amplitude must equal the classic sift.  '
